@@ -32,10 +32,10 @@ META = {
     "level": "proof",
     "technique": "Lean 4 theorems over an executable state-machine model (induction over schedules) + step-by-step differential correspondence with the real Queue/Weighted",
     "text": ("Kernel-checked theorems for every schedule: grants only below capacity, work conservation (a parked query is granted "
-             "whenever capacity frees, including AdjustCapacity), no capacity leak (active = granted - released), semaphore never over "
+             "whenever capacity frees, including AdjustCapacity), no capacity leak (active = granted - released), no overtaking (ghost-monitor invariant over every schedule), semaphore never over "
              "size, FIFO prefix admission, cancel leaves cur/size unchanged. The model is tied to the code by replaying each generated "
              "schedule op-by-op on the real objects and on the compiled Lean model and diffing active/cap/waiting/grant sets."),
     "note": ("Trusted: Lean kernel, model<->code correspondence on generated schedules (quick 600, thorough 20000), Go mutex/channel semantics "
-             "(one critical section = one model step). Not proved yet in Lean: the trace-level no-overtake statement (checked by the direct oracle on the implementation only)."),
+             "(one critical section = one model step). The no-overtake clause is proved through a ghost monitor (`bad` flag) carried by the model state."),
     "design_ref": "DESIGN.md §6 C29",
 }
